@@ -400,6 +400,7 @@ func (g *docGen) render(n *cnode) string {
 			for j := i; j < i+2; j++ {
 				sb.WriteString("<td" + g.noiseAttrs() + ">")
 				if j < len(kids) {
+					kids[j].leftK, kids[j].rightK = "DT", "DT"
 					sb.WriteString(g.render(kids[j]))
 				} else {
 					sb.WriteString(g.words(g.short))
@@ -424,6 +425,7 @@ func (g *docGen) render(n *cnode) string {
 			if mode == "mixed" {
 				cell = g.pick("td", "th")
 			}
+			c.leftK, c.rightK = "LT", "LT" // alone in its cell: the cell edges separate it from its neighbours
 			sb.WriteString("<" + cell + g.noiseAttrs() + ">" + g.render(c) + "</" + cell + ">")
 		}
 		sb.WriteString("</tr></table>")
